@@ -81,7 +81,24 @@ def batch_independence(ctx, clause: str):
         recv = n.func.value
         n_red += 1
         par = pm.get(n)
+        guarded_body = None
+        early_ret = None
         if isinstance(par, ast.If) and par.test is n:
+            guarded_body = par.body
+        elif isinstance(par, ast.UnaryOp) and isinstance(par.op, ast.Not) and isinstance(pm.get(par), ast.If) and pm.get(par).test is par:
+            # the guard-clause form: `if not M.any(): return t` followed by what the batch-wide test guards
+            gi = pm.get(par)
+            if gi.orelse:
+                guarded_body = gi.orelse
+            elif len(gi.body) == 1 and isinstance(gi.body[0], ast.Return) and gi.body[0].value is not None:
+                holder = pm.get(gi)
+                for fld in ("body", "orelse", "finalbody"):
+                    blk = getattr(holder, fld, None)
+                    if isinstance(blk, list) and any(x is gi for x in blk):
+                        guarded_body = blk[[i for i, x in enumerate(blk) if x is gi][0] + 1:]
+                        early_ret = u(gi.body[0].value)
+            par = gi
+        if guarded_body is not None:
             from sa.inline import Inliner
             inl = Inliner(f.node)
             mask = recv.id if isinstance(recv, ast.Name) else u(recv)[:30]
@@ -91,9 +108,16 @@ def batch_independence(ctx, clause: str):
                 while isinstance(e, ast.Call) and isinstance(e.func, ast.Attribute) and e.func.attr in ("unsqueeze", "expand_as", "expand"):
                     e = e.func.value
                 return inl.text(e) == maskx or (isinstance(recv, ast.Call) and False)
-            in_body = {id(x) for st_ in par.body for x in ast.walk(st_)}
+            in_body = {id(x) for st_ in guarded_body for x in ast.walk(st_)}
             bad = []
-            for st in par.body:
+            for st in guarded_body:
+                # (guard-clause form) the block ends by returning a masked update of what the guard clause returns
+                if early_ret is not None and isinstance(st, ast.Return) and st.value is not None:
+                    v = st.value
+                    if (isinstance(v, ast.Call) and call_name(v) == "torch.where" and len(v.args) == 3 and is_mask(v.args[0]) and u(v.args[2]) == early_ret) \
+                            or (isinstance(v, ast.Call) and isinstance(v.func, ast.Attribute) and v.func.attr == "masked_fill"
+                                and u(v.func.value) == early_ret and v.args and is_mask(v.args[0])) or u(v) == early_ret:
+                        continue
                 if isinstance(st, ast.If) and all(isinstance(s, ast.Expr) and isinstance(s.value, ast.Call)
                                                   and call_name(s.value) == "warnings.warn" for s in st.body) and not st.orelse:
                     continue
@@ -122,7 +146,7 @@ def batch_independence(ctx, clause: str):
             col.ob("G17", clause, f"{where}::if-{mask}.{n.func.attr}()::only-masked-idempotent-updates", not bad,
                    f"under the batch-wide test `{u(n)}` the kernel executes `{u(bad[0])[:80] if bad else ''}`, which is "
                    f"not a warning nor an update masked by `{mask}`: one pair's result would depend on the other pairs "
-                   f"in the batch", rel, par.lineno, sample=[u(s)[:80] for s in par.body])
+                   f"in the batch", rel, par.lineno, sample=[u(s)[:80] for s in guarded_body])
         else:
             # allowed: sizing an allocation via int(x.max().item())
             p2 = pm.get(n)
@@ -286,7 +310,8 @@ def empty_reference_convention(ctx, clause: str):
                        for x in der.nodes())
         if not zero_cmp:
             continue
-        if not any(u(t) == "norm" and pol for t, pol in guards_of(pm, c)):
+        from sa.astutil import under_flag
+        if not under_flag(guards_of(pm, c), "norm", True):  # (`if norm:` or after the guard clause `if not norm: return`)
             continue
         sites += 1
         from sa.inline import Inliner
